@@ -201,4 +201,19 @@ CLAIMS.update({
                   "real log"),
 })
 
+CLAIMS.update({
+    'C08': dict(
+        category='model_checking',
+        text="PARTIAL. Machine-checked: the locking discipline as regenerated go/ast facts (whole read calls under the segment-list read lock; "
+             "every writer access in Publish/Delete under the writer lock; rollover swap under the write lock) is a proof obligation; the "
+             "sequential model whose results the windows are compared with is the L1 model of C01-C12 (refinement theorems there). The "
+             "statement over schedules is decided by exploration of the real code: (a) every pause window of a held call x one or two other "
+             "calls of every kind, judged by enumerating the sequential orders consistent with real time against the model's exact results "
+             "and the resulting directory listing; (b) free-running mixes under the race detector judged by witness-free rules.",
+        note=COMMON_NOTE + "Partial by nature: thread interleavings of the Go runtime and page-wise visibility of concurrent file writes are "
+             "runtime behaviour no theorem about the model can exhibit; the model carries the sequential semantics, the schedules are explored.",
+        technique="regenerated go/ast lock facts as Lean proof obligations + schedule exploration of the real code against the Lean sequential "
+                  "model (linearizability search per window) + free-running histories under the Go race detector judged by the Lean driver"),
+})
+
 NOT_APPLICABLE = []
